@@ -27,16 +27,39 @@ type c05Issuer struct {
 	sk2  *rsa.PrivateKey
 	kid  []byte
 	name string
+	// refuse: a configured issuer (e.g. a retired key kept in the list) whose Evaluate always reports an error
+	refuse bool
+}
+
+// refuser has the identity (type, key id) of the issuer it wraps and refuses every request.
+type refuser struct{ batched.Issuer }
+
+func (r refuser) Evaluate(req tokens.TokenRequest) ([]byte, error) {
+	return nil, fmt.Errorf("issuer retired")
 }
 
 func (i *c05Issuer) asIssuer() batched.Issuer {
+	var is batched.Issuer = wrap2{i.i2}
 	if i.typ == 1 {
-		return wrap1{i.i1}
+		is = wrap1{i.i1}
 	}
-	return wrap2{i.i2}
+	if i.refuse {
+		return refuser{is}
+	}
+	return is
+}
+
+func (i *c05Issuer) refusing() *c05Issuer {
+	cp := *i
+	cp.refuse = true
+	cp.name += "-refusing"
+	return &cp
 }
 
 func (i *c05Issuer) eval(req tokens.TokenRequestWithDetails) (resp []byte, err error) {
+	if i.refuse {
+		return nil, fmt.Errorf("issuer retired")
+	}
 	pan, msg := h.Protect(func() {
 		if i.typ == 1 {
 			r, ok := req.(*type1.BasicPrivateTokenRequest)
@@ -333,8 +356,12 @@ func runC05(c *h.Ctx) {
 		"cross-type-last-byte-rev":   {t1cross, t2, t1},
 		"other-keys-only":            {t1other, t2other},
 		"duplicate-issuer":           {t2, t2, t1, t1},
+		// a configured issuer that REFUSES (same type and key id) before / after the one that serves
+		"refusing-then-serving": {t1.refusing(), t1, t2.refusing(), t2},
+		"serving-then-refusing": {t1, t1.refusing(), t2, t2.refusing()},
+		"refusing-only":         {t1.refusing(), t2.refusing()},
 	}
-	names := []string{"both", "both-reversed", "type1-only", "type2-only", "two-type1-shared-last-byte", "shared-last-byte-reversed", "cross-type-last-byte", "cross-type-last-byte-rev", "other-keys-only", "duplicate-issuer"}
+	names := []string{"both", "both-reversed", "type1-only", "type2-only", "two-type1-shared-last-byte", "shared-last-byte-reversed", "cross-type-last-byte", "cross-type-last-byte-rev", "other-keys-only", "duplicate-issuer", "refusing-then-serving", "serving-then-refusing", "refusing-only"}
 	kinds := []string{"t1:known", "t2:known", "t1:unknown-key-id", "t2:unknown-key-id", "t1:off-curve", "t1:identity", "t1:zero-prefix-49", "t1:short", "t1:long", "t2:above-modulus", "t2:short", "t2:empty"}
 	// requests for the cross-type issuer's key (it must be served although a type-2 issuer has the same last byte)
 	maxLen := 2
